@@ -305,15 +305,16 @@ def big_patch(ctx, yaw, root) -> None:
     within the stored radius of the stored centre, counts and weight sums exact, after creation and after reopening."""
     import pandas as pd
 
-    n0, n1 = 1_102_000, 60_000
+    n0, n1 = 1_102_000, 101_000
     rng = np.random.default_rng(5)
-    ra = np.concatenate([20.0 + rng.uniform(-0.3, 0.3, n0 - 2000), 20.0 + rng.uniform(0.7, 0.8, 2000), 40.0 + rng.uniform(-0.3, 0.3, n1)])
-    dec = np.concatenate([rng.uniform(-0.05, 0.05, n0), rng.uniform(-0.05, 0.05, n1)])
-    # the far records of patch 0 come last among the records of patch 0 in the table
-    order = np.concatenate([np.arange(0, n0 - 2000), np.arange(n0, n0 + n1), np.arange(n0 - 2000, n0)])
-    df = pd.DataFrame(dict(ra=ra[order], dec=dec[order], w=np.ones(n0 + n1)))
+    # six chunks of 200000 rows hold the 1.1 million central records of patch 0 (and 100000 of patch 1); the 2000
+    # records in the outskirts of patch 0 arrive alone in the seventh chunk: they are the last ones in its data file
+    ra = np.concatenate([20.0 + rng.uniform(-0.3, 0.3, n0 - 2000), 40.0 + rng.uniform(-0.3, 0.3, n1 - 1000),
+                         20.0 + rng.uniform(0.7, 0.8, 2000), 40.0 + rng.uniform(-0.3, 0.3, 1000)])
+    dec = rng.uniform(-0.05, 0.05, n0 + n1)
+    df = pd.DataFrame(dict(ra=ra, dec=dec, w=np.ones(n0 + n1)))
     cen = yaw.AngularCoordinates(np.deg2rad([[20.0, 0.0], [40.0, 0.0]]))
-    cat = yaw.Catalog.from_dataframe(root / "big", df, ra_name="ra", dec_name="dec", weight_name="w", patch_centers=cen, chunksize=250_000,
+    cat = yaw.Catalog.from_dataframe(root / "big", df, ra_name="ra", dec_name="dec", weight_name="w", patch_centers=cen, chunksize=200_000,
                                      overwrite=True, max_workers=1)
     for label, c in (("created", cat), ("reopened", yaw.Catalog(root / "big", max_workers=1))):
         ctx.evaluated(1, ("big_patch", label))
